@@ -109,16 +109,19 @@ def _body(r, ind: str):
             elif t < 0.85:
                 out.append(f"{ind}{k}:")
                 for _ in range(r.randint(1, 3)):
-                    out.append(f"{ind}{ind}- {r.choice(['a', '\"b/\"', '3', 'tests/'])}")
+                    item = r.choice(["a", '"b/"', "3", "tests/"])
+                    out.append(f"{ind}{ind}- {item}")
             else:
                 out.append(f"{ind}{k}:")
                 out.append(f"{ind}{ind}{r.choice(SUBKEYS)}: {_scalar(r)}")
     elif kind < 0.85:
         for _ in range(r.randint(1, 4)):
-            out.append(f"{ind}- {r.choice(['\".git/\"', 'build/', '\"*.pyc\"', 'docs', '12'])}")
+            item = r.choice(['".git/"', "build/", '"*.pyc"', "docs", "12"])
+            out.append(f"{ind}- {item}")
     else:
         for _ in range(r.randint(1, 3)):   # block sequence written at column 0
-            out.append(f"- {r.choice(['one', '\"two\"', '3'])}")
+            item = r.choice(["one", '"two"', "3"])
+            out.append(f"- {item}")
     return out
 
 
@@ -495,7 +498,7 @@ def gen_file_state(r):
 
 def gen_hist_case(seed, i):
     r = rng_for(seed, PROP, "hist", i)
-    mode = r.choice(["default", "yaml", "yaml", "json"])
+    mode = r.choice(["default", "yaml", "yaml", "yaml", "json", "json", "yaml"])
     via = "cli" if mode == "default" else ("cli" if r.random() < 0.05 else "api")
     cmds = []
     keys_used = []
@@ -640,6 +643,42 @@ def coq_hist(case, res):
     return (f"judge_hist cfgtool_actual {coq.coq_bool(case['mode'] != 'default')} {f0} {coq.coq_list(cmds)} {coq.coq_list(obs)}")
 
 
+def spec_convert(t: str):
+    """the documented conversion of `config set` values, independent of the repo's helper: booleans, integers, decimals, text"""
+    if t.lower() in ("true", "false"):
+        return t.lower() == "true"
+    for conv in (int, float):
+        try:
+            return conv(t)
+        except ValueError:
+            pass
+    return t
+
+
+def marker_ok_py(text: str) -> bool:
+    """Python twin of Proofs/CfgMergeText.v marker_ok: the GLOBAL SETTINGS banner (if any) stands at an entry boundary"""
+    lines = text.split("\n")
+    for i in range(len(lines) - 1):
+        if lines[i].endswith(MARK1) and lines[i + 1].startswith(MARK2):
+            for l in lines[i + 1:]:
+                s = l.rstrip()
+                if not s or s.lstrip(" ").startswith("#"):
+                    continue
+                cont = s.startswith(" ") or s == "-" or s.startswith("- ")
+                return (not cont) and s != "---"
+            return True
+    return True
+
+
+def outside_defect_classes(text: str, d: dict) -> bool:
+    """spelling_ok, is_block and marker_ok of theorem C20_init_config_partial: on such a file even the faithful model meets the
+    specification, so a failure there cannot be one of the listed findings"""
+    ls = linter_sections()
+    nls = {nk(n) for n in ls}
+    spelling = all(nk(k) not in nls or k in ls for k in d)
+    return spelling and not is_flow(text) and marker_ok_py(text)
+
+
 def py_hist_oracle(case, res):
     """the property stated directly with the repo's own validator and loader; list of failure texts"""
     m = impl()
@@ -661,7 +700,7 @@ def py_hist_oracle(case, res):
                 ok, errs = m["scfg"].validate_config(loaded)
                 if not ok:
                     fails.append(f"step {n}: file written by `set {c[1]} {c[2]!r}` does not validate: {errs}")
-                want = m["ccfg"]._convert_value_type(c[2])
+                want = spec_convert(c[2])
                 got = norm_cfg(dict((k, v) for k, v in st)).get(nk(c[1]), "<absent>")
                 if repr(got) != repr(want) or type(got) is not type(want):
                     fails.append(f"step {n}: value of {c[1]} after save/load is {got!r}, accepted {want!r}")
@@ -817,7 +856,9 @@ def load_known_local(chk):
         for f in json.loads(p.read_text()).get("findings", []):
             if f.get("property") == PROP:
                 bucket = "known" if f.get("status") == "known" else "fixed"
-                chk.known[bucket].setdefault(f["key"], f)
+                chk.known["known"].pop(f["key"], None)
+                chk.known["fixed"].pop(f["key"], None)
+                chk.known[bucket][f["key"]] = f
 
 
 # ------------------------------------------------------------------ the check
@@ -863,8 +904,8 @@ def run(tier: str, seed: int, replay: str | None = None) -> int:
         os.environ["C20_HOME"] = str(home)
         impl()
         if replay:
-            payload = json.loads(Path(replay).read_text())["violation"]
-            cases = [payload["case"]] if "case" in payload else []
+            payload = json.loads(Path(replay).read_text()).get("violation") or {}
+            cases = [payload["case"]] if "case" in payload else []   # none: the proofs / preset runs are re-checked
         else:
             cases = corpus_cases()
             cases += [gen_init_case(seed, i) for i in range(n_init)]
@@ -874,7 +915,16 @@ def run(tier: str, seed: int, replay: str | None = None) -> int:
         results = pool_map(_dispatch, cases, procs=8)
         conv_texts = [] if replay else gen_conv_texts(seed, n_conv)
         conv_vals = [run_conv(t) for t in conv_texts]
-        preset_jobs = [] if replay else [(p, c) for p in PRESETS for c in [None] + linter_commands()]
+        if replay and cases:
+            preset_jobs = []
+        elif quick and not replay:
+            # the presets differ in the magic-numbers section only: every command on one preset (chosen by the seed),
+            # the fresh file and the magic-numbers command on all of them; the thorough tier runs the full product
+            p0 = PRESETS[seed % len(PRESETS)]
+            preset_jobs = [(p, None) for p in PRESETS] + [(p0, c) for c in linter_commands()] + \
+                          [(p, "magic-numbers") for p in PRESETS if p != p0]
+        else:
+            preset_jobs = [(p, c) for p in PRESETS for c in [None] + linter_commands()]
         preset_res = pool_map(run_preset_cmd, preset_jobs, procs=8)
 
         # ---- Coq evaluation
@@ -909,7 +959,7 @@ def run(tier: str, seed: int, replay: str | None = None) -> int:
                 # heavy init terms first in small shards, the light ones in larger shards
                 heavy = [k for k, i in enumerate(owners) if cases[i]["stream"] == "init"]
                 light = [k for k in range(len(terms)) if k not in set(heavy)]
-                hv = eval_all([terms[k] for k in heavy], wd / "h", 10) if heavy else []
+                hv = eval_all([terms[k] for k in heavy], wd / "h", max(8, -(-len(heavy) // 14))) if heavy else []
                 lv = eval_all([terms[k] for k in light], wd / "l", 60) if light else []
                 allv = {}
                 allv.update(dict(zip(heavy, hv)))
@@ -1000,6 +1050,14 @@ def decide_init(chk, case, res, ver, cands_all):
             chk.violation({"reason": "init-config crashed", "detail": rr["err"], "case": case})
             return cands_all
     if ver is None:
+        # no verdict from the Coq side (the model did not build): by C20_init_config_partial a specification failure on a
+        # file outside the three defect classes cannot be a listed finding
+        if dE is not None and not all(pb) and outside_defect_classes(E, dE):
+            chk.violation({"reason": "init-config on an existing valid configuration violates: "
+                                     + ", ".join(n for n, b in zip(BIT_NAMES, pb) if not b)
+                                     + " (model unavailable; the file avoids every listed defect class)",
+                           "case": case, "exit": res[0]["rc"], "stdout": res[0]["out"][-300:], "after": R[:3000],
+                           "python_spec_bits": dict(zip(BIT_NAMES, pb))})
         return cands_all
     chk.traces_validated += 2
     bits = [bool(b) for b in ver]
@@ -1070,9 +1128,11 @@ def decide_hist(chk, case, res, ver, cands_all):
                 "observed": [[s["rc"], s["out"].strip()[:60]] for s in res["steps"]]}, 5)
     info = {"case": case, "observed": [{"rc": s["rc"], "out": s["out"][:200], "state": s["state"], "bytes_same": s["bytes_same"]} for s in res["steps"]]}
     if ver is None:
-        chk.dist("hist.outside_value_domain")
-        if fails:
-            chk.violation({"reason": "config set/get history violates the property (value outside the modelled domain): " + "; ".join(fails[:3]), **info})
+        chk.dist("hist.no_model_verdict")
+        # a value outside the modelled domain, or the model did not build: by C20_history_partial a failure on a history
+        # without hyphenated keys cannot be the listed finding
+        if fails and all("-" not in c[1] for c in case["cmds"] if len(c) > 1):
+            chk.violation({"reason": "config set/get history violates the property (no model verdict; no hyphenated key involved): " + "; ".join(fails[:3]), **info})
         return cands_all
     chk.traces_validated += len(case["cmds"])
     spec_bits, ideal_ok, cand = [bool(b) for b in ver[0]], bool(ver[1][0]), [bool(b) for b in ver[2]]
